@@ -243,6 +243,18 @@ func tsigVerify(msg []byte, provider TsigProvider, requestMAC string, timersOnly
 		return err
 	}
 
+	// The digest below is computed with class ANY and from the decoded fields, so
+	// the record must have that class (RFC 8945 section 4.2) and its RDATA must
+	// contain every field in full; otherwise octets of the message could be
+	// changed without invalidating the MAC.
+	if tsig.Hdr.Class != ClassANY {
+		return ErrSig
+	}
+	if int(tsig.Hdr.Rdlength) != tsig.len(0, nil)-tsig.Hdr.len(0, nil) ||
+		int(tsig.MACSize) != len(tsig.MAC)/2 || int(tsig.OtherLen) != len(tsig.OtherData)/2 {
+		return ErrSig
+	}
+
 	buf, err := tsigBuffer(stripped, tsig, requestMAC, timersOnly)
 	if err != nil {
 		return err
